@@ -59,7 +59,7 @@ type c15Append struct {
 }
 
 type c15Step struct {
-	Op       string // tx delete truncate compacthead stale selected restart
+	Op       string      // tx delete truncate compacthead stale selected restart
 	T        int64       `json:",omitempty"` // tx: time; truncate/compacthead: truncation time
 	Rollback bool        `json:",omitempty"`
 	Appends  []c15Append `json:",omitempty"`
@@ -382,6 +382,7 @@ func c15Short(s []string) []string {
 //   - which of several refs of one label set is the live one after a restart depends on
 //     which series records survived truncation, so later entries are logged under a ref
 //     that a replay of the raw concatenation would map differently.
+//
 // Attribution rule, written from what the records mean: an entry belongs to the label
 // set named by the series record of its ref that most recently preceded it; a label set
 // is one series from its first series record until a series-deletion marker (full-range
@@ -589,9 +590,9 @@ func runC15Head(c c15Case, r *ev.Rec) error {
 	var truncTime int64 = math.MinInt64 // M: newest truncation time
 	checkpoints, removedBeforeCP, removed := 0, false, false
 	nontrivial := false
-	var staleOrphan error             // first occurrence of the known root cause (reported at the end)
-	var dupMeta error                 // same for the duplicate-ref metadata root cause
-	var reissuedMeta error            // same for metadata of a re-issued ref number
+	var staleOrphan error  // first occurrence of the known root cause (reported at the end)
+	var dupMeta error      // same for the duplicate-ref metadata root cause
+	var reissuedMeta error // same for metadata of a re-issued ref number
 
 	// ---- oracle ----
 	verify := func(when string) error {
@@ -612,7 +613,7 @@ func runC15Head(c c15Case, r *ev.Rec) error {
 			return err
 		}
 		fullItems, _, _, fullErr := walDump(rawDir)
-		issued := map[uint64]int{}          // ref number -> series records in the whole history
+		issued := map[uint64]int{}        // ref number -> series records in the whole history
 		incNewest := map[uint64][]int64{} // ref number -> newest sample time of each incarnation
 		for _, it := range fullItems {
 			switch it.Kind {
